@@ -123,7 +123,12 @@ def run(prog, world, sem, rep):
            if add.site[1] in reach or not pe else "accumulation behind released == true of history[%s]" % show(key, 3), where(pv.body, add.site[1]))
     # key of the wait entry = key of the history entry: both from the same iterator item
     item0 = world.norm(key, 0, False)
-    prods = [p for p in find(world.norm(share, 0, False), lambda y: y.op == "bin" and y.info == "Mul")]
+    # (the sum of products may be computed by a pure helper / method such as UnbondHistory::claim_value: looked through)
+    sh = world.ident(share, expand_ws=False)
+    for _ in range(3):
+        if sh.op == "call" and world.callee_body(sh) is not None and world.is_pure(world.callee_body(sh)):
+            sh = world.ident(world.expand(sh), expand_ws=False)
+    prods = [p for p in find(world.norm(sh, 0, False), lambda y: y.op == "bin" and y.info == "Mul")]
     okc = len(prods) == 2
     det = []
     seen_tok = set()
